@@ -2,6 +2,7 @@
 //! keyboard sources, error hook, Config / Changeable / ConfigWatched, LateJoinSet, jobs) driven by
 //! simulated producers, handlers, a SimFilterer and a SimWatcher (hook H3).
 
+use std::cell::RefCell;
 use std::collections::HashMap;
 use std::path::{Path, PathBuf};
 use std::sync::Arc;
@@ -94,6 +95,10 @@ pub struct ErrPlan {
     /// slow handler: after each call the error hook task is stalled for this many virtual ms
     #[serde(default)]
     pub slow_ms: u64,
+    /// the k-th call keeps its ErrorHook alive (hands it to a "logger" that holds on to it for the rest of the run)
+    /// instead of dropping it when the handler returns
+    #[serde(default)]
+    pub park_at: Option<u32>,
 }
 
 #[derive(Clone, Debug, Serialize, Deserialize, PartialEq, Eq, Hash)]
@@ -670,6 +675,11 @@ fn note_generation(what: &'static str, generation: u32) {
     log(Ev::Note { what, a: generation as i64, b: 0 });
 }
 
+thread_local! {
+    /// error hooks a handler decided to keep (released when the next run starts)
+    static PARKED_HOOKS: RefCell<Vec<ErrorHook>> = const { RefCell::new(Vec::new()) };
+}
+
 fn install_error_handler(config: &Config, generation: u32) {
     config.on_error(move |hook: ErrorHook| {
         let (n, scn) = lib(|l| {
@@ -691,6 +701,11 @@ fn install_error_handler(config: &Config, generation: u32) {
             log(Ev::ErrAction { n, what: "replace" });
         }
         crate::ctx::stall_current_task(scn.err_plan.slow_ms);
+        if scn.err_plan.park_at == Some(n) && scn.err_plan.elevate_at != Some(n) && scn.err_plan.critical_at != Some(n) {
+            log(Ev::ErrAction { n, what: "park" });
+            PARKED_HOOKS.with(|p| p.borrow_mut().push(hook));
+            return;
+        }
         if scn.err_plan.elevate_at == Some(n) {
             log(Ev::ErrAction { n, what: "elevate" });
             hook.elevate();
@@ -790,6 +805,7 @@ async fn producer(pi: usize, steps: Vec<PStep>, wx: Arc<Watchexec>) {
 
 async fn e2_root(scn: E2Scn) {
     e1::reset_counters();
+    PARKED_HOOKS.with(|p| p.borrow_mut().clear());
     let scn = Arc::new(scn);
     lib(|l| {
         *l = LibWorld::default();
